@@ -7,6 +7,22 @@ ALL = [f'C{i:02d}' for i in range(1, 21)]
 TB = "Lean 4.33.0 kernel; axioms propext, Classical.choice, Quot.sound only (audited by #print axioms on every run); tools/params.py (constants/tables translator); the correspondence harness (Rust oracle calling the real code, compiled Lean driver, comparator)"
 
 CHECKS = {
+ 'C11': ('proof',
+   "Lean theorems (Props/C11.lean), for every item type with decidable equality, all lists, all multiplicities: previous patched with the diff equals current as a multiset in BOTH representations (change list and full replacement, each exhibited), the diff is absent iff the collections are equal as multisets, the Few/Many count split never truncates (threshold regenerated from the source and checked to fit u8), and the debug_asserts assertions inside the comparison can never fire. All statements are on counts, hence hold for every hash-map iteration order. Correspondence: real unordered_hashcmp / apply_unordered_hashdiffs vs the model, diffs compared as canonical multisets, multiplicities crossing 255/256, sizes around the replacement boundary.",
+   TB + "; HashMap = association list with distinct keys in some order; Hash/Eq/Clone lawful; counts in Nat",
+   "Lean 4 proof (count-map algebra, order-free) + differential correspondence", "DESIGN.md §5 C11"),
+ 'C12': ('proof',
+   "Lean theorems (Props/C12.lean) for maps with unique keys, both equality modes, both representations: the result of applying the diff to previous is a map (every key once) equal to current key for key and value for value; a changed key carries the new value only; the diff is absent iff the maps are equal. Proved through a per-key specification of the comparison loop and of the removal / insertion passes (general multimaps with counts), specialised to unique keys. Correspondence: direct calls of the real functions, canonical diffs and results compared exactly.",
+   TB + "; HashMap = association list with distinct keys; PartialEq of values lawful",
+   "Lean 4 proof (per-key refinement of the map algebra) + differential correspondence", "DESIGN.md §5 C12"),
+ 'C19': ('proof',
+   "Lean theorems (Props/C19.lean): for an ARBITRARY base and an ARBITRARY diff value (not only one computed from that base) the array-like apply is total and yields per item `base - removed (saturating) + inserted`, a replacement yields exactly the carried collection, and the result is independent of hash order; the flat map-like apply is total and yields only keys from the base or the diff (recursive map-like: C13.apply_keys). Correspondence: diff(p,c) applied to unrelated bases under catch_unwind, in a release build and in a dev build with the `debug_asserts` feature so that debug assertions are live.",
+   TB + "; `usize` overflow of `*val += count` outside the model",
+   "Lean 4 proof (total functions + closed-form effect) + differential correspondence incl. a debug-assertions build", "DESIGN.md §5 C19"),
+ 'C20': ('proof',
+   "Lean theorems (Props/C20.lean): a change list mentions every item at most once, with exactly the multiplicity delta, never an unchanged item, and every changed item; a replacement carries exactly the new collection; a replacement is chosen iff distinct(cur) < distinct(prev) - distinct(cur) (so never when the new side has at least as many distinct items). Flat maps with unique keys: per key exactly nothing / one insertion / one removal / remove-old + insert-new, every entry with positive count. Correspondence: the REAL diffs are checked entry by entry for minimality and compared with the model diffs as canonical multisets.",
+   TB + "; HashMap = association list with distinct keys",
+   "Lean 4 proof (closed form of the emitted entries) + differential correspondence on canonical diffs", "DESIGN.md §5 C20"),
  'C10': ('proof',
    "Lean theorems (Props/C10.lean): from EVERY layout satisfying the representation invariant, insert/remove/swap/range-drain/extend/index/assignment/from_iter/new have exactly the List effect and result, capacity violations panic, the invariant is preserved, lifted by induction to every operation history. The model mirrors the Rust cell array physically and is compared with the real ArrayMap exactly (every invariant layout for N<=4 x every op, plus random histories at N=16/8). PARTIAL: the iteration theorems (forward/backward/interleaved owning iteration) are not yet proved; iteration is covered by the exhaustive correspondence against a plain-sequence oracle only.",
    TB + "; u8 logical indices modelled in Nat; library sorts modelled as insertion sorts (unique result for distinct keys)",
